@@ -345,8 +345,8 @@ let fn_spec c impl =
 
 let model _ line =
   match words line with
-  | "fn" :: _ as ws -> fn_model (parse_fn ws)
-  | _ -> run_chain line
+  | "fn" :: _ as ws -> (try fn_model (parse_fn ws) with Failure _ | Not_found | Invalid_argument _ -> "BADCASE")
+  | _ -> (try run_chain line with Failure _ | Not_found | Invalid_argument _ -> "BADSCRIPT")
 
 (* ------------------------------------------------------------------------------------------ *)
 (* holds: the property's predicates on what the implementation reported.  The script is parsed for the
@@ -379,7 +379,8 @@ let holds args case impl =
   | "fn" :: _ as ws -> if String.length impl >= 5 && String.sub impl 0 5 = "CRASH" then "fail the implementation aborted" else fn_spec (parse_fn ws) impl
   | _ ->
     if String.length impl >= 5 && String.sub impl 0 5 = "CRASH" then "fail the node aborted on this script" else
-    if String.length impl >= 3 && String.sub impl 0 3 = "EXC" then "na" else begin
+    if impl = "BADSCRIPT" then "na" else
+    if String.length impl >= 3 && String.sub impl 0 3 = "EXC" then "fail the node threw an exception: " ^ impl else begin
       let s = fresh () in
       let toks = ref (if impl = "-" then [] else split_tokens impl) in
       let next () = match !toks with t :: r -> toks := r; t | [] -> failwith "implementation printed fewer tokens than the script has printing ops" in
@@ -390,8 +391,23 @@ let holds args case impl =
         match Str.split (Str.regexp_string " > ") tok with
         | [ _; t ] -> String.trim t
         | _ -> failwith ("bad token " ^ tok) in
+      (* the node's own last verdict on every block it checked *)
+      let last_verdict : (string, string) Hashtbl.t = Hashtbl.create 16 in
+      let note_events tok =
+        match Str.split (Str.regexp_string " > ") tok with
+        | [ left; _ ] ->
+          (match words left with
+           | [ _; evs ] when evs <> "-" ->
+             List.iter (fun e -> match split_on '=' e with
+                 | [ b; r ] -> Hashtbl.replace last_verdict b r
+                 | _ -> ()) (split_on ',' evs)
+           | _ -> ())
+        | _ -> () in
       let chain_of name =
         let b = Hashtbl.find s.blocks name in
+        List.iter (fun (x : blk) -> match Hashtbl.find_opt last_verdict x.bname with
+            | Some r when r <> "ok" -> fail ("block " ^ x.bname ^ " is on the active chain although the node rejected it with " ^ r)
+            | _ -> ()) (ancestors s b);
         fixture_blocks @ List.rev_map (fun (x : blk) -> x.mblock) (ancestors s b) in
       let check_dump tok db =
         let ws = words tok in
@@ -419,7 +435,7 @@ let holds args case impl =
              | [ "nobip34" ] | [ "flush" ] -> ()
              | [ "tx"; name; ins; outs ] -> def_tx s name ins outs
              | "mine" :: name :: parent :: cbs :: txn -> mine s name parent cbs txn
-             | [ "submit"; _ ] | [ "invalidate"; _ ] | [ "reconsider"; _ ] -> tip := tip_of (next ())
+             | [ "submit"; _ ] | [ "invalidate"; _ ] | [ "reconsider"; _ ] -> let tok = next () in note_events tok; tip := tip_of tok
              | [ "dump" ] -> check_dump (next ()) false
              | [ "dumpdb" ] -> check_dump (next ()) true
              | _ -> failwith "bad op") (ops_of case)
